@@ -195,6 +195,12 @@ pub fn run_ops(
                     if judge && a != Ok(None) {
                         return Some((OP_RAW_EMPTY, "None".into(), format!("{:?}", a)));
                     }
+                    if ops & OP_FIND_RAW != 0 && ops & OP_RFIND_RAW != 0 {
+                        let b = s.rfind_raw(p, p);
+                        if judge && b != Ok(None) {
+                            return Some((OP_RAW_EMPTY, "None".into(), format!("rfind_raw: {:?}", b)));
+                        }
+                    }
                     if ops & OP_COUNT_RAW != 0 && arity == 1 {
                         if let Some(c) = s.count_raw(p, p) {
                             if judge && c != 0 {
@@ -213,6 +219,20 @@ pub fn run_ops(
                 };
                 if judge && a != Ok(None) {
                     return Some((OP_RAW_INV, "None".into(), format!("{:?}", a)));
+                }
+                if ops & OP_FIND_RAW != 0 && ops & OP_RFIND_RAW != 0 {
+                    // both directions selected (C05 / C14 / C09): the reverse routine as well, and with
+                    // start one past end in the middle of the buffer
+                    let b = s.rfind_raw(en, st);
+                    if judge && b != Ok(None) {
+                        return Some((OP_RAW_INV, "None".into(), format!("rfind_raw: {:?}", b)));
+                    }
+                    let mid = st.add(len / 2);
+                    let c = s.rfind_raw(mid.add(1).min(en), mid);
+                    let d = s.find_raw(mid.add(1).min(en), mid);
+                    if judge && (c != Ok(None) || d != Ok(None)) {
+                        return Some((OP_RAW_INV, "None".into(), format!("start = end + 1 in the middle: find_raw {:?}, rfind_raw {:?}", d, c)));
+                    }
                 }
                 if ops & OP_COUNT_RAW != 0 && arity == 1 {
                     if let Some(c) = s.count_raw(en, st) {
